@@ -153,9 +153,21 @@ void run_cfg(vf::Ctx &c, const Cfg &cfg) {
         fail(cfg.plat == 2 ? "C02:reader-flush-without-export:slow-collection" : "C02:reader-flush-without-export",
              vf::sfmt("ForceFlush #%d returned true at [%zu] (called at [%d]) but no Export of data collected after the call was started before it returned", ev[i].a, i, ci));
       }
-      bool xff = false;
-      for (int j = ci; j < (int)i; ++j) if (ev[j].kind == XFF_ENTER) xff = true;
+      // ... and the exporter's own ForceFlush has been invoked: after that Export was entered (a flush of the
+      // exporter issued before the data reached it flushes nothing) and before the reader's ForceFlush returned
+      int qual = -1;  // the first Export, entered after the call, of data collected after the call
+      for (int j = ci; j < (int)i && qual < 0; ++j) {
+        if (ev[j].kind != EXP_ENTER) continue;
+        for (int k = ci; k < j; ++k) if (ev[k].kind == PRODUCE && ev[k].a == ev[j].a) { qual = j; break; }
+      }
+      bool xff = false, xff_after = false;
+      for (int j = ci; j < (int)i; ++j) if (ev[j].kind == XFF_ENTER) { xff = true; if (j > qual) xff_after = true; }
       if (!xff) fail("C02:reader-flush-without-exporter-flush", vf::sfmt("ForceFlush #%d returned true at [%zu] but the exporter's ForceFlush was not invoked in between", ev[i].a, i));
+      // (when a Shutdown has begun before the flush returns, OnForceFlush is released at once and the final cycle and
+      // the exporter's Shutdown follow: the statement does not order the two calls there, so only their presence is required)
+      bool sd_began = false;
+      for (int j = 0; j < (int)i; ++j) if (ev[j].kind == CALL_SD) sd_began = true;
+      if (!xff_after && !sd_began) fail("C02:reader-flush-incomplete:exporter-flushed-before-data", vf::sfmt("ForceFlush #%d returned true at [%zu]: the exporter's ForceFlush was only invoked before the Export at [%d] of the data collected after the call", ev[i].a, i, qual));
     }
     if (sd_ret >= 0)
       for (size_t i = sd_ret; i < ev.size(); ++i)
@@ -180,27 +192,26 @@ void setup(vf::Options &o) {
   o.table_bits = th ? 25 : 23;
   o.deadline_s = atof(o.get("budget", th ? "900" : "60").c_str());
   Cfg z{};
-  if (g_oracle == "C03") {
-    { Cfg c = z; c.F = 1; g_cfgs.push_back(c); }
-    { Cfg c = z; c.F = 2; c.xlat = 1; g_cfgs.push_back(c); }
-    { Cfg c = z; c.F = 1; c.xlat = 2; c.fft = 2; g_cfgs.push_back(c); }
-    { Cfg c = z; c.F = 1; c.sd_race = 1; g_cfgs.push_back(c); }
-  } else {
-    { Cfg c = z; c.F = 1; c.late = 1; g_cfgs.push_back(c); }
-    { Cfg c = z; c.F = 2; c.fft = 3; g_cfgs.push_back(c); }
-    { Cfg c = z; c.F = 1; c.fft = 1; c.xlat = 1; g_cfgs.push_back(c); }   // flush shorter than the export
-    { Cfg c = z; c.F = 1; c.fft = 2; c.xlat = 2; g_cfgs.push_back(c); }   // slow exporter (outlives export_timeout)
-    { Cfg c = z; c.F = 1; c.fft = 2; c.plat = 1; g_cfgs.push_back(c); }
-    { Cfg c = z; c.F = 1; c.sd_race = 1; g_cfgs.push_back(c); }
-    { Cfg c = z; c.F = 1; c.xfail = 3; g_cfgs.push_back(c); }
-    if (th) {
-      { Cfg c = z; c.F = 2; c.sd_race = 1; c.xlat = 1; g_cfgs.push_back(c); }
-      { Cfg c = z; c.F = 2; c.fft = 1; c.xlat = 2; g_cfgs.push_back(c); }
-    }
-    // F15 (DESIGN section 6): a COLLECTION that outlives export_timeout; the statement's fault list names slow
-    // exporters, so this configuration is explored under its own signature (…:slow-collection).
-    { Cfg c = z; c.F = 1; c.fft = 1; c.plat = 2; g_cfgs.push_back(c); }
+  // one configuration list for both oracles: every predicate holds for every configuration
+  { Cfg c = z; c.F = 1; c.late = 1; g_cfgs.push_back(c); }
+  { Cfg c = z; c.F = 2; c.fft = 3; g_cfgs.push_back(c); }
+  { Cfg c = z; c.F = 1; c.fft = 1; c.xlat = 1; g_cfgs.push_back(c); }   // flush shorter than the export
+  { Cfg c = z; c.F = 1; c.fft = 2; c.xlat = 2; g_cfgs.push_back(c); }   // slow exporter (outlives export_timeout)
+  { Cfg c = z; c.F = 1; c.fft = 2; c.plat = 1; g_cfgs.push_back(c); }
+  { Cfg c = z; c.F = 1; c.sd_race = 1; g_cfgs.push_back(c); }
+  { Cfg c = z; c.F = 1; c.xfail = 3; g_cfgs.push_back(c); }
+  { Cfg c = z; c.F = 2; c.xlat = 1; g_cfgs.push_back(c); }
+  // Shutdown racing a cycle that outlives export_timeout (the cancel / join path concurrent with OnShutDown)
+  { Cfg c = z; c.F = 1; c.sd_race = 1; c.xlat = 2; g_cfgs.push_back(c); }
+  { Cfg c = z; c.F = 0; c.sd_race = 1; c.xlat = 2; g_cfgs.push_back(c); }
+  { Cfg c = z; c.F = 1; c.sd_race = 1; c.plat = 2; g_cfgs.push_back(c); }
+  if (th) {
+    { Cfg c = z; c.F = 2; c.sd_race = 1; c.xlat = 1; g_cfgs.push_back(c); }
+    { Cfg c = z; c.F = 2; c.fft = 1; c.xlat = 2; g_cfgs.push_back(c); }
   }
+  // F15 (DESIGN section 6): a COLLECTION that outlives export_timeout; the statement's fault list names slow
+  // exporters, so this configuration is explored under its own signature (…:slow-collection).
+  { Cfg c = z; c.F = 1; c.fft = 1; c.plat = 2; g_cfgs.push_back(c); }
   std::string only = o.get("cfg");
   if (!only.empty()) { Cfg c = g_cfgs[atoi(only.c_str())]; g_cfgs.assign(1, c); }
 }
